@@ -297,7 +297,7 @@ def case_spectrum_frequency(ctx, nf, method):
     f, e, mom, s, t = _spec1d(ctx, nf, 1)
     x = ctx.reals("x", 1)
     fill = ctx.frac(7, 2)        # a non-default extrapolation value, forwarded through the wrapper in every mode
-    r = ctx.noraise("D-SP.raise", s.interpolate_frequency, x, fill, method)
+    r = ctx.noraise("D-SP.raise", s.interpolate_frequency, x, 3.5, method)
     ge = np.asarray(r.variance_density.values)
     k = _bracket(ctx, f, x[0])
     if k is None:
